@@ -34,3 +34,6 @@ MANIFEST_ENTRY = {
             "save/restore, array-shape/broadcast independence, move/rotate equivariance and the float angle tests near multiples of pi/2 are covered by parameter/point grids against independently written geometry (bounded).",
     "note": "Trusted: floats as reals, point-wise lifting, numpy-on-reals model, rotation matrix formula, pyvc + z3 nlsat. Branch selection by np.isclose and everything matplotlib/tensordot-based is bounded.",
 }
+
+MANIFEST_ENTRY['text'] += ' Roi.rotate_by is proved to make one rotate_to call with exactly current angle + dtheta; accumulated rotate_by sequences on polygons, mixed coordinate dtypes for the projected region and exact label membership for categorical regions are explored.'
+TRUSTED_BASE.append('Roi.rotate_by contract: numpy.pi as a real constant; rotate_to of the concrete region classes is explored by the rotate_by sequences, not proved')
